@@ -94,9 +94,20 @@ def gen(rng, tier, index=0):
             guard = 0.1
     else:
         stop_timeout = round(total + 5.0, 3)
-    return {'knobs': knobs, 'mode': mode, 'guard': guard, 'stop_data': stop_data,
+    plan = {'knobs': knobs, 'mode': mode, 'guard': guard, 'stop_data': stop_data,
             'stop_dur': rng.choice([0.0, 0.2]), 'stop_timeout': stop_timeout, 'tight': tight,
             'puts': puts, 'stop_at': stop_at}
+    # how the coroutine takes its arguments / what stop_data looks like:
+    #   value: f_args=('value',), stop_data={'value': 'STOP'}
+    #   kwarg: f_kwargs=('value',)
+    #   empty: coroutine without arguments, stop_data={} (a defined but empty mapping);
+    #          the runs cannot be told apart then, so this shape has no puts at all
+    r = rng.random()
+    plan['stop_shape'] = 'value' if r < 0.85 else 'kwarg' if r < 0.93 else 'empty'
+    if plan['stop_shape'] == 'empty':
+        plan['stop_data'] = True
+        plan['puts'] = []
+    return plan
 
 
 def execute(plan, trace=False):
@@ -114,7 +125,19 @@ def execute(plan, trace=False):
             hist.append([loop._ns, kind, ident, extra])
             run.log(kind, ident, extra)
 
-        async def coro(value):
+        shape = plan.get('stop_shape', 'value')
+
+        async def coro(*args, **kwargs):
+            if shape == 'value':
+                value, = args
+            elif shape == 'kwarg':
+                if args or list(kwargs) != ['value']:
+                    raise PlanError('unexpected coroutine arguments')
+                value = kwargs['value']
+            else:
+                if args or kwargs:
+                    raise PlanError('unexpected coroutine arguments')
+                value = 'STOP'
             sc = script.get(value)
             if sc is None:
                 raise PlanError('unknown put id')
@@ -143,7 +166,7 @@ def execute(plan, trace=False):
                 h('out', None, [canon(data.get('previous')), canon(data.get('value'))])
             else:
                 put = data.get('put') or {}
-                h('result', put.get('value'), [etype, canon(data.get('value')),
+                h('result', 'STOP' if shape == 'empty' and not put else put.get('value'), [etype, canon(data.get('value')),
                                                type(data.get('error')).__name__
                                                if 'error' in data else None,
                                                canon({k: v for k, v in put.items()})])
@@ -153,7 +176,10 @@ def execute(plan, trace=False):
                 'out', coro=coro, mode=mode, guard_time=plan['guard'],
                 on_success=edzed.Event(recorder, 'success'), on_error=edzed.Event(recorder, 'error'),
                 on_cancel=edzed.Event(recorder, 'cancel'), on_output=edzed.Event(recorder, 'out'),
-                stop_data={'value': 'STOP'} if plan['stop_data'] else None,
+                stop_data=(({} if shape == 'empty' else {'value': 'STOP'})
+                           if plan['stop_data'] else None),
+                f_args=('value',) if shape == 'value' else (),
+                f_kwargs=('value',) if shape == 'kwarg' else (),
                 stop_timeout=plan['stop_timeout'])
         except Exception as err:
             raise PlanError(f"OutputAsync: {err}") from None
@@ -274,7 +300,10 @@ def judge(run, plan, hist, st, slack_ns, guard_ns):
                             f"(began={ident in begins}, ended={ends.get(ident)})")
             continue
         rtype, rvalue, rerr, rput = res[0][1]
-        if rput.get('value') != ident or ('source' in rput) != (ident != 'STOP'):
+        if plan.get('stop_shape') == 'empty' and ident == 'STOP':
+            if rput:
+                run.violate('C12/result-data', f"stop_data {{}}: result carries put={rput}")
+        elif rput.get('value') != ident or ('source' in rput) != (ident != 'STOP'):
             run.violate('C12/result-data', f"put {ident}: result carries put={rput}")
         outcome = ends.get(ident, (None, None))[1]
         want = {'ok': 'success', 'err': 'error', 'cancelled': 'cancel', None: 'cancel'}[outcome]
